@@ -376,6 +376,7 @@ func checkC14(c *ctx) {
 	dir := newScratch(work, "m")
 	o := prog.DefaultOpts()
 	// the single-defect mutations rewrite the abstract flow: keep every function and type in the program's own package
+	o.TwinPct = 0
 	o.ImportPct, o.BarePct, o.LineDirPct = 0, 0, 0 // (with //line comments diagnostics rightly name the file those comments announce)
 	o.InstrPct = 0
 	o.Spellings = []int{prog.SpLit, prog.SpLit, prog.SpTop, prog.SpMethod}
